@@ -1,10 +1,13 @@
 import TexcraftModel.Util.Proto
 import TexcraftModel.Model.C07
+import TexcraftModel.Model.C07Scan
 
 /-! Driver for C07. All requests are a command word followed by integers.
 
 * `cond <Text>` → `n=<#flatten> | <M outcome> | <S: select> | <S with the pre-fix \ifodd>`
   `<M outcome>` = `ok -<stack, bottom→top, letters T/E/S> <groups> <plain codes…>` or `err <name>`
+* `surf <flat tokens>` → `<surfaceL (loosen false l)> | <surfaceAll l>` as `num` tokens, or `none` if an operand is not a decimal constant
+* `num <surface tokens>` → `<code machine outcome> | <TeX-rule machine outcome> | nc=<neverClosesWhileScanning>` (operand scanning on tokens, Model/C07Scan)
 * `tok <flat tokens>` → `<M outcome> | <M outcome with the pre-fix \\ifodd>`
 * `ev <test>` → `m=<0/1> s=<0/1> pre=<0/1>` (condition evaluation: model, spec, pre-fix formula)
 * `xa <nmacros> (<nparams> <len> <body items…>)* <height> <stream…>`
@@ -228,6 +231,66 @@ def showX : Option (Except XErr (List XTok)) → String
   | some (.error e) => s!"err {xerrCode e}"
   | some (.ok ts) => s!"ok {showInts (ts.map encXTok).flatten}".trimAscii.toString
 
+/-! ### Surface programs (operand scanning) -/
+
+/-- Values of the registers `\rA … \rH` that the harness sets up. -/
+def regTable : List Int := [0, 1, -1, 7, -2147483648, 2147483647, -3, 100]
+
+/-- `0 itrue 1 ifalse 2 iodd 3 inum 4 icase 5 else 6 or 7 fi | 8 d | 9 - | 10 + | 11 space | 12 r |
+13 j (register) | 14 n (other) | 15 { | 16 }` -/
+def decUToks : Nat → Cur → Option (List UTok)
+  | 0, _ => none
+  | fuel + 1, c =>
+    match c with
+    | [] => some []
+    | 0 :: t => do pure (.itrue :: (← decUToks fuel t))
+    | 1 :: t => do pure (.ifalse :: (← decUToks fuel t))
+    | 2 :: t => do pure (.iodd :: (← decUToks fuel t))
+    | 3 :: t => do pure (.inum :: (← decUToks fuel t))
+    | 4 :: t => do pure (.icase :: (← decUToks fuel t))
+    | 5 :: t => do pure (.els :: (← decUToks fuel t))
+    | 6 :: t => do pure (.orr :: (← decUToks fuel t))
+    | 7 :: t => do pure (.fi :: (← decUToks fuel t))
+    | 8 :: d :: t => do
+      if d < 0 || d > 9 then none
+      pure (.dig d.toNat :: (← decUToks fuel t))
+    | 9 :: t => do pure (.minus :: (← decUToks fuel t))
+    | 10 :: t => do pure (.plus :: (← decUToks fuel t))
+    | 11 :: t => do pure (.sp :: (← decUToks fuel t))
+    | 12 :: r :: t => do pure (.rel (← decRel r) :: (← decUToks fuel t))
+    | 13 :: j :: t => do
+      if j < 0 then none
+      pure (.reg (← regTable[j.toNat]?) :: (← decUToks fuel t))
+    | 14 :: n :: t => do
+      if n < 0 then none
+      pure (.other n.toNat :: (← decUToks fuel t))
+    | 15 :: t => do pure (.bg :: (← decUToks fuel t))
+    | 16 :: t => do pure (.eg :: (← decUToks fuel t))
+    | _ => none
+
+def encRel : Rel → Int | .lt => 0 | .eq => 1 | .gt => 2
+
+def encUTok : UTok → List Int
+  | .itrue => [0] | .ifalse => [1] | .iodd => [2] | .inum => [3] | .icase => [4]
+  | .els => [5] | .orr => [6] | .fi => [7]
+  | .dig d => [8, d] | .minus => [9] | .plus => [10] | .sp => [11]
+  | .rel r => [12, encRel r]
+  | .reg v => [13, (regTable.idxOf v : Nat)]
+  | .other n => [14, n] | .bg => [15] | .eg => [16]
+
+def uerrName : UErr → String
+  | .cond e => errName e
+  | .expectedNumber => "expected-number"
+  | .numberTooBig => "number-too-big"
+  | .eofNumber => "eof-number"
+  | .expectedRelation => "expected-relation"
+  | .unmodelled => "unmodelled"
+  | .fuel => "model-out-of-fuel"
+
+def showU : Except UErr USt → String
+  | .ok s => s!"ok -{String.ofList (s.stack.reverse.map kindLetter)} {s.groups} {showInts (s.out.map encUTok).flatten}".trimAscii.toString
+  | .error e => s!"err {uerrName e}"
+
 def handle (line : String) : String :=
   match words line with
   | "cond" :: ws =>
@@ -238,6 +301,24 @@ def handle (line : String) : String :=
         let fl := t.flatten
         s!"n={fl.length} | {showM (expandAll fl)} | {showInts (encOut t.selectToks)} | {showInts (encOut (preText t).selectToks)}"
       | _ => "bad-request"
+    | none => "bad-request"
+  | "surf" :: ws =>
+    -- the surface program (Model/C07Scan `surfaceL ∘ loosen false`) of an abstract token list
+    match ints? ws with
+    | some c =>
+      match decFlat (c.length + 1) c with
+      | some l =>
+        if l.all Tok.operandsOkB then
+          s!"{showInts ((surfaceL (loosen false l)).map encUTok).flatten} | {showInts ((surfaceAll l).map encUTok).flatten}"
+        else "none"
+      | none => "bad-request"
+    | none => "bad-request"
+  | "num" :: ws =>
+    match ints? ws with
+    | some c =>
+      match decUToks (c.length + 1) c with
+      | some l => s!"{showU (urun false {} l)} | {showU (urun true {} l)} | nc={b2i (neverClosesWhileScanning {} l)}"
+      | none => "bad-request"
     | none => "bad-request"
   | "tok" :: ws =>
     match ints? ws with
